@@ -3982,12 +3982,6 @@ func (ce *callEngine) callNativeFunc(ctx context.Context, m *wasm.ModuleInstance
 			timeout := int64(ce.popValue())
 			exp := ce.popValue()
 			offset := ce.popMemoryOffset(op)
-			// Runtime instead of validation error because the spec intends to allow binaries to include
-			// such instructions as long as they are not executed.
-			if !memoryInst.Shared {
-				panic(wasmruntime.ErrRuntimeExpectedSharedMemory)
-			}
-
 			switch unsignedType(op.B1) {
 			case unsignedTypeI32:
 				if offset%4 != 0 {
@@ -3995,6 +3989,12 @@ func (ce *callEngine) callNativeFunc(ctx context.Context, m *wasm.ModuleInstance
 				}
 				if int(offset) > len(memoryInst.Buffer)-4 {
 					panic(wasmruntime.ErrRuntimeOutOfBoundsMemoryAccess)
+				}
+				// Runtime instead of validation error because the spec intends to allow binaries to include
+				// such instructions as long as they are not executed. This is checked after bounds and
+				// alignment, in the same order as the compiler.
+				if !memoryInst.Shared {
+					panic(wasmruntime.ErrRuntimeExpectedSharedMemory)
 				}
 				ce.pushValue(memoryInst.Wait32(offset, uint32(exp), timeout, func(mem *wasm.MemoryInstance, offset uint32) uint32 {
 					mem.Mux.Lock()
@@ -4008,6 +4008,9 @@ func (ce *callEngine) callNativeFunc(ctx context.Context, m *wasm.ModuleInstance
 				}
 				if int(offset) > len(memoryInst.Buffer)-8 {
 					panic(wasmruntime.ErrRuntimeOutOfBoundsMemoryAccess)
+				}
+				if !memoryInst.Shared {
+					panic(wasmruntime.ErrRuntimeExpectedSharedMemory)
 				}
 				ce.pushValue(memoryInst.Wait64(offset, exp, timeout, func(mem *wasm.MemoryInstance, offset uint32) uint64 {
 					mem.Mux.Lock()
